@@ -660,8 +660,8 @@ fn slice_lfu(a: &Args, t: &mut Trace, which: u32) {
             }
             _ => {
                 let samples = r.range(0, 8);
-                let ctor = r.below(2);
-                let samples = if ctor == 0 { 5 } else { samples };
+                let ctor = r.below(7);
+                let samples = if matches!(ctor, 0 | 2 | 4) { 5 } else { samples };
                 let mc = r.below(500) as i64 - 50;
                 let mut pool = Vec::new();
                 let id = format!("sampled-s{}-i{}", a.seed, i);
